@@ -146,7 +146,10 @@ let filtered_seq_stream oc =
     flt (var "missing") "keys" [];
     flt (var "nv") "reverse" [];
     flt (attr (var "mp") "zz") "default" [ arr [ lit_int 7 ] ];
-    flt (flt (var "missing") "default" [ lit_str "ab" ]) "upper" [] ] in
+    flt (flt (var "missing") "default" [ lit_str "ab" ]) "upper" [];
+    (* strings inside the sequence expression that hold what the for tag gives a meaning to elsewhere *)
+    arr [ lit_str "."; lit_str ".."; lit_str "src" ]; arr [ lit_str "ok"; lit_str "wait.." ]; arr [ lit_str "a in b"; lit_str " in " ]; arr [ lit_str "x if y"; lit_str "else" ];
+    flt (arr [ lit_str "1..3" ]) "default" [ arr [] ]; flt (lit_str "a..b") "upper" []; arr [ lit_str "k, v"; lit_str "," ]; flt (var "missing") "default" [ lit_str ".." ] ] in
   let ctx = [ ("nv", M.VNull); ("lst", M.VList (M.LAny, [ G.vint 2; G.vint 1 ])); ("emp", M.VList (M.LAny, [])); ("mp", M.VMap (M.MAny, [ (G.vstr "a", G.vint 1) ])) ] in
   List.iter (fun sq ->
     emit_c09 oc ~stream:"c09-filtered-seq" [ M.NFor (None, bs "x", sq, body, Some [ text "none" ]); text "." ] ctx;
